@@ -32,7 +32,7 @@ def gen_signature(rng, max_params=5, p_ret=0.7, allow_symbolic=True, p_variadic=
                 if r < 0.15:
                     toks.append("...")
                 else:
-                    toks.append(G._mods(rng, "*" + ("#" if rng.random() < 0.45 else "")) + rng.choice(G.VNAMES))
+                    toks.append(G._mods(rng, "*" + ("#" if rng.random() < 0.45 else "")) + rng.choice(("v", "w", "v", "b")))
                 continue
             r = rng.random()
             if r < 0.55:
